@@ -62,10 +62,13 @@ type Case struct {
 	WithdrawFault [2]bool `json:"withdrawfault,omitempty"`
 	// NoWatch[i]: party i never calls Channel.Watch (it learns about
 	// registrations only when it settles itself)
-	NoWatch  [2]bool `json:"nowatch,omitempty"`
-	Rush     bool    `json:"rush,omitempty"`
-	RushBy   int     `json:"rushby,omitempty"`
-	RushHold int     `json:"rushhold,omitempty"`
+	NoWatch [2]bool `json:"nowatch,omitempty"`
+	// SlowCtx[i]: microseconds the first Done() calls on party i's Settle
+	// context take (schedule control, see sim.SlowCtx)
+	SlowCtx  [2][]int `json:"slowctx,omitempty"`
+	Rush     bool     `json:"rush,omitempty"`
+	RushBy   int      `json:"rushby,omitempty"`
+	RushHold int      `json:"rushhold,omitempty"`
 }
 
 func drawCase(t *rapid.T) Case {
@@ -129,6 +132,11 @@ func drawCase(t *rapid.T) Case {
 	c.Secondary = [2]bool{rapid.Bool().Draw(t, "sec0"), rapid.Bool().Draw(t, "sec1")}
 	if rapid.IntRange(0, 4).Draw(t, "nowatch") == 0 {
 		c.NoWatch = [2]bool{rapid.Bool().Draw(t, "nw0"), rapid.Bool().Draw(t, "nw1")}
+	}
+	for i := 0; i < 2; i++ {
+		if rapid.IntRange(0, 2).Draw(t, "slowctx") == 0 {
+			c.SlowCtx[i] = rapid.SliceOfN(rapid.SampledFrom([]int{0, 60, 400, 1500}), 1, 3).Draw(t, "delays")
+		}
 	}
 	if rapid.IntRange(0, 3).Draw(t, "wfault") == 0 {
 		c.WithdrawFault = [2]bool{rapid.Bool().Draw(t, "wf0"), rapid.Bool().Draw(t, "wf1")}
@@ -235,6 +243,10 @@ func runCase(c Case) (o *h.Outcome) {
 	pr, err := sim.NewPairOpt(serializer(c.Ser), 0, 1, [2]bool{!c.NoWatch[0], !c.NoWatch[1]})
 	if c.NoWatch[0] || c.NoWatch[1] {
 		o.Class("party-without-watcher")
+	}
+	pr.SettleCtxDelay = c.SlowCtx
+	if len(c.SlowCtx[0])+len(c.SlowCtx[1]) > 0 {
+		o.Class("settle-context-slow")
 	}
 	if err != nil {
 		return fail("harness", "creating parties: %v", err)
